@@ -268,6 +268,14 @@ def _variants():
         V("cleanup-range-equivalent", replace_expr(BS, "clean_up", "range(perm_len_min, perm_len_max + 1)", "range(perm_len_min, 1 + perm_len_max)"), "silent"),
         V("auto-rename-sg", rename_local(BI, "auto_bisc", "sg", "description"), "silent"),
         V("auto-rename-val", rename_local(BI, "auto_bisc", "val", "ok"), "silent"),
+        V("forb-filter-against-kept", replace_stmt(BS, "forb.find_badpatts", "for j, r in enumerate(R): ...", "for r in R:\n    if not any(s.issubset(r) for s in newR):\n        newR.append(r)"), "fire", "C17-M1"),
+        V("forb-filter-superset", replace_expr(BS, "forb.find_badpatts", "s.issubset(r)", "r.issubset(s)"), "fire", "C17-M1"),
+        V("forb-filter-sort-ascending", replace_expr(BS, "forb.find_badpatts", "sorted(rec_w_reduce_pattern_pos(set([]), set([]), goodpatts[n][perm], perm, pattern_positions, check_interval), key=lambda x: len(x), reverse=True)",
+                                                       "sorted(rec_w_reduce_pattern_pos(set([]), set([]), goodpatts[n][perm], perm, pattern_positions, check_interval), key=lambda x: len(x))"), "fire", "C17-M1"),
+        V("forb-filter-ascending-kept", [replace_expr(BS, "forb.find_badpatts", "sorted(rec_w_reduce_pattern_pos(set([]), set([]), goodpatts[n][perm], perm, pattern_positions, check_interval), key=lambda x: len(x), reverse=True)",
+                                                       "sorted(rec_w_reduce_pattern_pos(set([]), set([]), goodpatts[n][perm], perm, pattern_positions, check_interval), key=len)"),
+                                         replace_stmt(BS, "forb.find_badpatts", "for j, r in enumerate(R): ...", "for r in R:\n    if not any(s <= r for s in newR):\n        newR.append(r)")], "silent"),
+        V("cleanup-flag-reset-hoisted", [replace_stmt(BS, "clean_up", "perm_is_a_key = False", ""), insert_stmt(BS, "clean_up", "L_is_a_key = False", "perm_is_a_key = False", "after")], "fire", "C17-U2"),
         # silent
         V("reformat-bisc-sub", reformat_only(BS), "silent"),
         V("bisc-swap-sides", replace_expr(BS, "perm_contains_cl_patt_many_shadings", "candidate_elt < element", "element > candidate_elt"), "silent"),
@@ -813,3 +821,161 @@ FLOORS.update({"C17-A1": 2, "C17-A2": 2, "C17-U1": 4})
 
 EXPLANATION = EXPLANATION.replace("NOT decided: everything else of the property (soundness up to n, completeness up to m, irredundancy, clean-up, equivalence of the input forms, auto_bisc up to length 8)",
     "Also decided, as necessary conditions: auto_bisc returns only a value that passed both sanity checks up to a bound >= 8 on that very path (A1, path-sensitive typestate), the two sanity checks are bounded universal searches over all lengths 0..L and all elements (A2), the clean-up tests every bad permutation of every length it is given, records avoidance with the right polarity and removes refuted candidates (U1). NOT decided: soundness up to n, completeness up to m and irredundancy of the learned set")
+
+
+# ------------------------------------------------------------------ U2: per-element flags are reset per element
+
+
+def per_element_flags(fi: FuncInfo):
+    """(loop, if-statement, flag, reset?) for every boolean flag that is set under a condition on the loop variable and
+    read inside the same loop body: it describes the current element, so it must be re-initialised for each element."""
+    def names_in(e: ast.AST):
+        return {n.id for n in ast.walk(e) if isinstance(n, ast.Name)}
+
+    for loop in walk_no_nested(fi.node):
+        if not isinstance(loop, ast.For):
+            continue
+        tv = names_in(loop.target)
+        for idx, st in enumerate(loop.body):
+            if not (isinstance(st, ast.If) and names_in(st.test) & tv):
+                continue
+            def flags(stmts):
+                out = set()
+                for s in stmts:
+                    for n in ast.walk(s):
+                        if isinstance(n, ast.Assign) and isinstance(n.value, ast.Constant) and isinstance(n.value.value, bool):
+                            out |= {t.id for t in n.targets if isinstance(t, ast.Name)}
+                return out
+            for x in sorted(flags(st.body) - flags(st.orelse)):
+                reads = [n for s in loop.body for n in ast.walk(s) if isinstance(n, ast.Name) and n.id == x and isinstance(n.ctx, ast.Load)]
+                if not reads:
+                    continue  # an accumulator consumed after the loop
+                reset = [s for s in loop.body[:idx] if isinstance(s, ast.Assign) and any(isinstance(t, ast.Name) and t.id == x for t in s.targets)]
+                yield loop, st, x, bool(reset)
+
+
+def rule_u2(ctx: Ctx) -> None:
+    mod = ctx.repo.module("permuta.bisc.bisc_subfunctions")
+    n = 0
+    for fi in mod.functions.values():
+        for loop, st, x, reset in per_element_flags(fi):
+            n += 1
+            v = unparse(loop.target)
+            if reset:
+                ctx.ok("C17-U2", fi.where, f"flag `{x}` (set when `{unparse(st.test)[:60]}`) is re-initialised for every `{v}` before it is set", st, fi)
+            else:
+                ctx.violation("C17-U2", fi, st, f"flag `{x}` describes the current `{v}` (set when `{unparse(st.test)[:60]}`) but is not re-initialised inside `for {v} in {unparse(loop.iter)[:30]}`: after the first `{v}` that sets it, every later one is treated the same way (stale value carried between iterations)")
+    if n < 2:
+        raise AnalysisError(f"only {n} per-element flag(s) found in the BiSC helpers (2 confirmed by hand: L_is_a_key, perm_is_a_key)")
+
+
+_OLD_RUN3 = run
+
+
+def run(ctx: Ctx) -> None:  # noqa: F811
+    _OLD_RUN3(ctx)
+    ctx.run(rule_u2, ctx)
+
+
+FLOORS["C17-U2"] = 2
+
+
+# ------------------------------------------------------------------ M1: the filter that keeps only minimal shadings
+
+
+def rule_m1(ctx: Ctx) -> None:
+    """forb keeps, among the shadings found for a pattern, the inclusion-minimal ones.  The filter is sound only if each
+    candidate is compared with every candidate that can be a subset of it: with the list sorted by decreasing size these
+    are the later ones (R[j+1:]); sorted by increasing size, the earlier / already kept ones."""
+    mod = ctx.repo.module("permuta.bisc.bisc_subfunctions")
+    forb = mod.functions.get("forb")
+    if forb is None:
+        raise AnalysisError("forb vanished")
+    found = 0
+    for fi in [forb] + list(forb.nested.values()):
+        for loop in walk_no_nested(fi.node):
+            if not isinstance(loop, ast.For):
+                continue
+            tests = [st for st in loop.body if isinstance(st, ast.If) and "issubset" in unparse(st.test) or isinstance(st, ast.If) and "<=" in unparse(st.test) and "any(" in unparse(st.test)]
+            if len(tests) != 1 or len(loop.body) != 1:
+                continue
+            st = tests[0]
+            keep = [b for b in st.body if isinstance(b, ast.Expr) and isinstance(b.value, ast.Call) and isinstance(b.value.func, ast.Attribute) and b.value.func.attr == "append"]
+            if len(keep) != 1:
+                continue
+            found += 1
+            kept = unparse(keep[0].value.func.value)
+            # loop shape
+            if isinstance(loop.target, ast.Tuple) and isinstance(loop.iter, ast.Call) and unparse(loop.iter.func) == "enumerate" and len(loop.target.elts) == 2:
+                j, r = unparse(loop.target.elts[0]), unparse(loop.target.elts[1])
+                src = unparse(loop.iter.args[0])
+            elif isinstance(loop.target, ast.Name):
+                j, r = None, loop.target.id
+                src = unparse(loop.iter)
+            else:
+                raise AnalysisError(f"{fi.where}: filter loop `{unparse(loop.target)}` not recognised")
+            if unparse(keep[0].value.args[0]) != r:
+                raise AnalysisError(f"{fi.where}: the filter keeps `{unparse(keep[0].value.args[0])}`, not the candidate")
+            # sort order of the source
+            from ..core import flow_env
+
+            env = flow_env(fi, loop)
+            # the source may be assigned inside an `if`: search the assignment directly
+            sort_call = None
+            for n in walk_no_nested(fi.node):
+                if isinstance(n, ast.Assign) and unparse(n.targets[0]) == src and isinstance(n.value, ast.Call) and unparse(n.value.func) == "sorted":
+                    sort_call = n.value
+            _ = env
+            if sort_call is None:
+                raise AnalysisError(f"{fi.where}: the candidates `{src}` are not produced by sorted(...)")
+            kw = {k.arg: k.value for k in sort_call.keywords}
+            key = kw.get("key")
+            if key is None or unparse(key) not in ("len",) and not (isinstance(key, ast.Lambda) and unparse(key.body) == f"len({key.args.args[0].arg})"):
+                raise AnalysisError(f"{fi.where}: candidates are not sorted by size (`key={unparse(key) if key else None}`)")
+            rev = kw.get("reverse")
+            if rev is not None and not isinstance(rev, ast.Constant):
+                raise AnalysisError(f"{fi.where}: sort direction not constant")
+            descending = bool(rev.value) if rev is not None else False
+            # the test: not any(<s subset r> for s in POOL)
+            t = st.test
+            if not (isinstance(t, ast.UnaryOp) and isinstance(t.op, ast.Not) and isinstance(t.operand, ast.Call) and unparse(t.operand.func) == "any" and len(t.operand.args) == 1):
+                raise AnalysisError(f"{fi.where}: filter test `{unparse(t)[:60]}` not recognised")
+            a = t.operand.args[0]
+            if isinstance(a, ast.Call) and unparse(a.func) == "map" and len(a.args) == 2 and isinstance(a.args[0], ast.Lambda):
+                s, rel, pool = a.args[0].args.args[0].arg, a.args[0].body, a.args[1]
+            elif isinstance(a, ast.GeneratorExp) and len(a.generators) == 1 and not a.generators[0].ifs and isinstance(a.generators[0].target, ast.Name):
+                s, rel, pool = a.generators[0].target.id, a.elt, a.generators[0].iter
+            else:
+                raise AnalysisError(f"{fi.where}: filter test `{unparse(t)[:60]}` not recognised")
+            rel_t = unparse(rel)
+            if rel_t in (f"{s}.issubset({r})", f"{s} <= {r}", f"{r}.issuperset({s})", f"{r} >= {s}"):
+                pass
+            elif rel_t in (f"{r}.issubset({s})", f"{r} <= {s}", f"{s}.issuperset({r})", f"{s} >= {r}"):
+                ctx.violation("C17-M1", fi, st, f"the filter drops a shading when it is a subset of another one (`{rel_t}`): it keeps the maximal, not the minimal ones")
+                continue
+            else:
+                raise AnalysisError(f"{fi.where}: relation `{rel_t}` not recognised")
+            pool_t = unparse(pool)
+            later = j is not None and pool_t in (f"{src}[{j} + 1:]", f"{src}[1 + {j}:]")
+            earlier = (j is not None and pool_t == f"{src}[:{j}]") or pool_t == kept
+            if (descending and later) or (not descending and earlier):
+                ctx.ok("C17-M1", fi.where, f"minimal-elements filter: candidates sorted by {'decreasing' if descending else 'increasing'} size, each compared with the {'later (smaller)' if descending else 'earlier (smaller) kept'} ones `{pool_t}`", st, fi)
+            elif later or earlier:
+                ctx.violation("C17-M1", fi, st, f"candidates are sorted by {'decreasing' if descending else 'increasing'} size but each one is compared only with `{pool_t}`, which holds the {'larger' if descending else 'later, larger'} ones: a proper subset is never among them, so non-minimal shadings are kept (redundant cells in the learned patterns)")
+            elif pool_t == src:
+                ctx.violation("C17-M1", fi, st, f"each candidate is compared with the whole list `{src}`, itself included: every shading is dropped")
+            else:
+                raise AnalysisError(f"{fi.where}: comparison pool `{pool_t}` not recognised")
+    if found != 1:
+        raise AnalysisError(f"{found} minimal-shading filters found in forb (1 confirmed by hand)")
+
+
+_OLD_RUN4 = run
+
+
+def run(ctx: Ctx) -> None:  # noqa: F811
+    _OLD_RUN4(ctx)
+    ctx.run(rule_m1, ctx)
+
+
+FLOORS["C17-M1"] = 1
